@@ -156,6 +156,14 @@ func (fc *FuncCtx) assume(st *State, fact string) {
 	if fact == "true" {
 		return
 	}
+	// top-level conjunctions become separate facts (smaller queries after slicing, and a
+	// quantified conjunct can be set aside without losing its neighbours)
+	if strings.HasPrefix(fact, "(and ") && balanced(fact[5:len(fact)-1]) {
+		for _, part := range splitSexp(fact[5 : len(fact)-1]) {
+			fc.assume(st, part)
+		}
+		return
+	}
 	fc.facts = append(fc.facts, implies(st.guard, fact))
 }
 
@@ -220,7 +228,9 @@ func (fc *FuncCtx) fail(n ast.Node, f string, a ...interface{}) {
 // query renders the SMT-LIB text of an obligation.
 func (o *Obligation) Query(models bool) string { return o.QueryWith(models, nil) }
 
-func (o *Obligation) QueryWith(models bool, extra []string) string {
+func (o *Obligation) QueryWith(models bool, extra []string) string { return o.queryOpts(models, extra, false) }
+
+func (o *Obligation) queryOpts(models bool, extra []string, dropQuant bool) string {
 	fc := o.fc
 	var b strings.Builder
 	if models {
@@ -237,6 +247,9 @@ func (o *Obligation) QueryWith(models bool, extra []string) string {
 		b.WriteString(d + "\n")
 	}
 	for _, f := range fc.facts[:o.NFact] {
+		if dropQuant && (strings.Contains(f, "(forall ") || strings.Contains(f, "(exists ")) {
+			continue
+		}
 		b.WriteString("(assert " + f + ")\n")
 	}
 	for _, e := range extra {
